@@ -23,6 +23,11 @@ class InjectedFault(BaseException):
     """Asynchronous exception injected by the simulator (not an Exception subclass on purpose)."""
 
 
+class InjectedError(Exception):
+    """Asynchronous exception of the ordinary kind (what a worker-timeout or signal handler that raises
+    TimeoutError/RuntimeError looks like): unlike InjectedFault it IS caught by `except Exception` in library code."""
+
+
 class Failed:
     """Heap slot content for an op that raised."""
 
